@@ -1,5 +1,6 @@
 import CarModel.Driver.Util
 import CarModel.Layout
+import CarModel.RootReader
 /-
 Families `scan` (any byte string through a scanning reader) and `mut` (a valid archive,
 truncated or corrupted) — C01 (reader side), C02.
@@ -12,6 +13,13 @@ def runReader (H : HashFn) (rd : String) (o : ReadOpts) (input : Bytes) : Except
   if rd == "br-seek" then scanBlockReader H o true input
   else if rd == "br-plain" then scanBlockReader H o false input
   else if rd == "v1" then scanV1 H o true input
+  else if rd == "root" || rd == "rootload" then scanRoot H true input
+  else if rd == "rootloadfast" then
+    -- LoadCar into a store with PutMany: blocks are handed over in batches of 1001 and at a clean end;
+    -- a failure drops the batch being collected
+    match scanRoot H true input with
+    | .error e => .error e
+    | .ok r => if r.ending == .eof then .ok r else .ok { r with blocks := r.blocks.take (1001 * (r.blocks.length / 1001)) }
   else .error .other
 
 /-- result + (for verifying readers) whether every returned block verifies under `H`. -/
@@ -85,7 +93,8 @@ def famMut (H : HashFn) (kv : KV) : String × String :=
         let complete := (bnds.drop 1).filter (· ≤ rel) |>.length
         let pre := if isSkipReader rd then cidsStr ((blocks.take complete).map (·.cid)) else blocksStr (blocks.take complete)
         let bk := if isSkipReader rd then "cids" else "blocks"
-        if bnds.contains rel then
+        if rd == "rootloadfast" && !bnds.contains rel then "open=ok end=!eof"   -- which blocks reached the store is batch policy
+        else if bnds.contains rel then
           -- a CARv2 whose window is cut short still announces dataSize: cut ≠ end is not clean for v2 either,
           -- but the limit reader cannot tell; the property only demands clean EOF *exactly on* boundaries.
           s!"open=ok {bk}={pre} end=eof"
@@ -111,6 +120,7 @@ def famMut (H : HashFn) (kv : KV) : String × String :=
           let cidStart := secStart + uvarintSize l
           let digStart := cidStart + (b.cid.byteLen - b.cid.digest.length)
           if rel ≥ digStart then
+            if rd == "rootloadfast" then "open=ok end=!eof" else
             s!"open=ok blocks={blocksStr (blocks.take idx)} end=!eof"
           else "sound=1"
     (m ++ s!" archok={archok}", if s.isEmpty then "sound=1" else s ++ " sound=1")
